@@ -502,7 +502,8 @@ class ConcurrentVector {
    **/
   iterator insert(const_iterator pos, const T& value) {
     auto it = insertPartial(pos);
-    new (&*it) T(value);
+    // The slot at `it` holds a live (moved-from) element after the shift: assign, don't construct.
+    *it = value;
     return it;
   }
 
@@ -514,7 +515,8 @@ class ConcurrentVector {
    **/
   iterator insert(const_iterator pos, T&& value) {
     auto it = insertPartial(pos);
-    new (&*it) T(std::move(value));
+    // The slot at `it` holds a live (moved-from) element after the shift: assign, don't construct.
+    *it = std::move(value);
     return it;
   }
 
